@@ -142,7 +142,7 @@ impl<'a> IrEmitter<'a> {
                 let fs: Vec<_> = fields
                     .iter()
                     .map(|(fname, fpat)| {
-                        let fn_ident = format_ident!("{}", fname);
+                        let fn_ident = format_ident!("{}", Self::escape_keyword(fname));
                         let fp = self.emit_pattern(fpat);
                         quote! { #fn_ident: #fp }
                     })
@@ -161,7 +161,7 @@ impl<'a> IrEmitter<'a> {
                     let idents: Vec<_> = segments.iter().map(|s| format_ident!("{}", s)).collect();
                     quote! { #(#idents)::* }
                 } else {
-                    let v_ident = format_ident!("{}", variant);
+                    let v_ident = format_ident!("{}", Self::escape_keyword(variant));
                     quote! { #v_ident }
                 };
                 if fields.is_empty() {
